@@ -372,7 +372,7 @@ def run(ctx, prop):
             h.append(('Restart', []))
         hist.append(('tlc', h))
     for _ in range(300 if ctx.quick else 3000):
-        h = mc.gen_random(scn, rng, rng.choice([8, 12, 16]))
+        h = mc.gen_random(scn, rng, rng.choice([8, 12, 16]), topology=True)
         hist.append(('rnd', h))
         if prop == 'C10' or not ctx.quick:
             for hc in (with_cuts(h, rng, 2) if ctx.quick else with_cuts(h, rng, 4)):
